@@ -1,7 +1,8 @@
 import SJ.Proofs.TypedBasic
 /-!
-# Progress and fuel: every successful typed parse consumes at least one byte, the loops never run
-# out of their fuel, and `deTyped` needs no more fuel than the size of the schema
+# Progress and fuel: every successful typed parse consumes at least one byte and advances the position
+# by what it consumed, the loops never run out of their fuel, and `deTyped` needs no more fuel than the
+# size of the schema
 -/
 namespace SJ.Proofs.Typed
 open SJ SJ.Gen SJ.Model SJ.Model.Typed
@@ -9,21 +10,56 @@ open SJ.Model.Machine (St Mode Frame Step step1 errIdx endNumber finishMode init
 open SJ.Model.Stream (skipWs)
 
 /-- a deserializer for one value: never out of fuel, consumes at least one byte -/
-def Good (de : Bytes → Nat → TOut) : Prop := ∀ r p, Shr r (de r p)
+def Good (de : Bytes → Nat → TOut) : Prop := ∀ r p, Shr r p (de r p)
+
+/-! ## helpers -/
+
+theorem atEof_shr {α : Type} {env : Env} {c : Code} {i : Nat} {rest : Bytes} {pos : Nat} : Shr rest pos (atEof env c i : Res α) :=
+  shr_of_not_ok (atEof_ne_fuel env c i) (atEof_ne_ok env c i)
+theorem err_shr {α : Type} {c : Code} {i : Nat} {rest : Bytes} {pos : Nat} : Shr rest pos (.err c i : Res α) :=
+  shr_of_not_ok (by simp) (by simp)
+theorem raw_shr {α : Type} {r : Bytes} {p : Nat} {rest : Bytes} {pos : Nat} : Shr rest pos (.raw r p : Res α) :=
+  shr_of_not_ok (by simp) (by simp)
+theorem data_shr {α : Type} {i : Nat} {rest : Bytes} {pos : Nat} : Shr rest pos (.data i : Res α) :=
+  shr_of_not_ok (by simp) (by simp)
+theorem io_shr {α : Type} {rest : Bytes} {pos : Nat} : Shr rest pos (.io : Res α) :=
+  shr_of_not_ok (by simp) (by simp)
+theorem ok_shrLe_of {α : Type} {a : α} {r rest : Bytes} {p pos : Nat} (h : r.length ≤ rest.length)
+    (hp : p + r.length = pos + rest.length) : ShrLe rest pos (.ok a r p : Res α) :=
+  ⟨by simp, fun _ _ _ e => by cases e; exact ⟨h, hp⟩⟩
+theorem ok_shr_of {α : Type} {a : α} {r rest : Bytes} {p pos : Nat} (h : r.length < rest.length)
+    (hp : p + r.length = pos + rest.length) : Shr rest pos (.ok a r p : Res α) :=
+  ⟨by simp, fun _ _ _ e => by cases e; exact ⟨h, hp⟩⟩
+theorem ok_shrLe {α : Type} (a : α) (r : Bytes) (p : Nat) : ShrLe r p (.ok a r p : Res α) := ok_shrLe_of (Nat.le_refl _) rfl
+
+/-- after skipping whitespace and consuming one byte -/
+theorem shr_after_skip {α : Type} {rest : Bytes} {pos : Nat} {b : UInt8} {r : Bytes} {p : Nat}
+    (h : skipWs rest pos = (b :: r, p)) {x : Res α} (hx : ShrLe r (p + 1) x) : Shr rest pos x := by
+  have := skipWs_eq h
+  simp only [List.length_cons] at this
+  exact hx.step (by omega) (by omega)
+
+theorem shr_skip {α : Type} {rest : Bytes} {pos : Nat} {r : Bytes} {p : Nat}
+    (h : skipWs rest pos = (r, p)) {x : Res α} (hx : Shr r p x) : Shr rest pos x :=
+  hx.mono (skipWs_eq h).1 (skipWs_eq h).2
+
+theorem shrLe_skip {α : Type} {rest : Bytes} {pos : Nat} {r : Bytes} {p : Nat}
+    (h : skipWs rest pos = (r, p)) {x : Res α} (hx : ShrLe r p x) : ShrLe rest pos x :=
+  hx.mono (skipWs_eq h).1 (skipWs_eq h).2
 
 /-! ## scalars -/
 
-theorem parseIdent_le (env : Env) (id : Bytes) (rest : Bytes) (pos : Nat) : ShrLe rest (parseIdent env id rest pos) := by
+theorem parseIdent_le (env : Env) (id : Bytes) (rest : Bytes) (pos : Nat) : ShrLe rest pos (parseIdent env id rest pos) := by
   induction id generalizing rest pos with
-  | nil => exact ⟨by simp [parseIdent], fun a r' p' h => by simp [parseIdent] at h; simp [h.1]⟩
+  | nil => simp only [parseIdent]; exact ok_shrLe _ _ _
   | cons e es ih =>
     cases rest with
-    | nil => exact ⟨by simp [parseIdent, atEof_ne_fuel], fun a r' p' h => by simp [parseIdent] at h; exact absurd h (atEof_ne_ok _ _ _ _ _ _)⟩
+    | nil => simp only [parseIdent]; exact atEof_shr.le
     | cons b r =>
       simp only [parseIdent]
       split
-      · exact (ih r (pos + 1)).mono (by simp)
-      · exact ⟨by simp, fun a r' p' h => by simp at h⟩
+      · exact (ih r (pos + 1)).mono (by simp) (by simp only [List.length_cons]; omega)
+      · exact err_shr.le
 
 theorem peekInvalidType_not_ok {α : Type} (env : Env) (rest : Bytes) (pos : Nat) (a : α) (r : Bytes) (p : Nat) :
     (peekInvalidType env rest pos : Res α) ≠ .ok a r p := by
@@ -42,85 +78,55 @@ theorem peekInvalidType_ne_fuel {α : Type} (env : Env) (rest : Bytes) (pos : Na
     · have := (machine_shr (valEnv env) env.flt 0 init startable_init (b :: bs) pos).1
       cases hm : machine (valEnv env) env.flt 0 init (b :: bs) pos <;> simp_all
 
-theorem peekInvalidType_shr {α : Type} (env : Env) (rest rest0 : Bytes) (pos : Nat) :
-    Shr rest0 (peekInvalidType env rest pos : Res α) :=
+theorem peekInvalidType_shr {α : Type} {env : Env} {rest rest0 : Bytes} {pos pos0 : Nat} :
+    Shr rest0 pos0 (peekInvalidType env rest pos : Res α) :=
   shr_of_not_ok (peekInvalidType_ne_fuel env rest pos) (peekInvalidType_not_ok env rest pos)
 
-/-- after skipping whitespace and consuming one byte -/
-theorem shr_after_skip {α : Type} {rest : Bytes} {pos : Nat} {b : UInt8} {r : Bytes} {p : Nat}
-    (h : skipWs rest pos = (b :: r, p)) {x : Res α} (hx : ShrLe r x) : Shr rest x := by
-  have := (skipWs_eq h).1
-  simp only [List.length_cons] at this
-  exact ⟨hx.1, fun a r' p' e => by have := hx.2 a r' p' e; omega⟩
-
-theorem shr_skip {α : Type} {rest : Bytes} {pos : Nat} {r : Bytes} {p : Nat}
-    (h : skipWs rest pos = (r, p)) {x : Res α} (hx : Shr r x) : Shr rest x :=
-  hx.mono (skipWs_eq h).1
-
-theorem shrLe_skip {α : Type} {rest : Bytes} {pos : Nat} {r : Bytes} {p : Nat}
-    (h : skipWs rest pos = (r, p)) {x : Res α} (hx : ShrLe r x) : ShrLe rest x :=
-  hx.mono (skipWs_eq h).1
-
-theorem atEof_shr {α : Type} (env : Env) (c : Code) (pos : Nat) (rest : Bytes) : Shr rest (atEof env c pos : Res α) :=
-  shr_of_not_ok (atEof_ne_fuel env c pos) (atEof_ne_ok env c pos)
-
-theorem err_shr {α : Type} (c : Code) (i : Nat) (rest : Bytes) : Shr rest (.err c i : Res α) :=
-  shr_of_not_ok (by simp) (by simp)
-theorem raw_shr {α : Type} (r : Bytes) (p : Nat) (rest : Bytes) : Shr rest (.raw r p : Res α) :=
-  shr_of_not_ok (by simp) (by simp)
-theorem data_shr {α : Type} (i : Nat) (rest : Bytes) : Shr rest (.data i : Res α) :=
-  shr_of_not_ok (by simp) (by simp)
-theorem io_shr {α : Type} (rest : Bytes) : Shr rest (.io : Res α) :=
-  shr_of_not_ok (by simp) (by simp)
-theorem ok_shrLe_of {α : Type} {a : α} {r rest : Bytes} {p : Nat} (h : r.length ≤ rest.length) : ShrLe rest (.ok a r p : Res α) :=
-  ⟨by simp, fun _ _ _ e => by cases e; exact h⟩
-theorem ok_shr_of {α : Type} {a : α} {r rest : Bytes} {p : Nat} (h : r.length < rest.length) : Shr rest (.ok a r p : Res α) :=
-  ⟨by simp, fun _ _ _ e => by cases e; exact h⟩
-theorem ok_shrLe {α : Type} (a : α) (r : Bytes) (p : Nat) : ShrLe r (.ok a r p : Res α) := ok_shrLe_of (Nat.le_refl _)
-
 theorem ident_then_ok (env : Env) (id : Bytes) (v : TVal) (r : Bytes) (p : Nat) :
-    ShrLe r ((parseIdent env id r p).bind fun _ r' p' => (.ok v r' p' : TOut)) :=
+    ShrLe r p ((parseIdent env id r p).bind fun _ r' p' => (.ok v r' p' : TOut)) :=
   (parseIdent_le env id r p).bind_le fun _ r1 p1 _ => ok_shrLe _ _ _
 
 theorem deBool_shr (env : Env) : Good (deBool env) := by
   intro rest pos
   unfold deBool
   split
-  · exact atEof_shr _ _ _ _
+  · exact atEof_shr
   · rename_i b r p h
     split
     · exact shr_after_skip h (ident_then_ok _ _ _ _ _)
     · split
       · exact shr_after_skip h (ident_then_ok _ _ _ _ _)
-      · exact peekInvalidType_shr _ _ _ _
+      · exact peekInvalidType_shr
 
 theorem deUnit_shr (env : Env) : Good (deUnit env) := by
   intro rest pos
   unfold deUnit
   split
-  · exact atEof_shr _ _ _ _
+  · exact atEof_shr
   · rename_i b r p h
     split
     · exact shr_after_skip h (ident_then_ok _ _ _ _ _)
-    · exact peekInvalidType_shr _ _ _ _
+    · exact peekInvalidType_shr
 
-theorem fixPos_shr {α : Type} (env : Env) (pk : Bool) {rest : Bytes} {x : Res α} (h : Shr rest x) : Shr rest (fixPos env pk x) := by
+theorem fixPos_shr {α : Type} (env : Env) (pk : Bool) {rest : Bytes} {pos : Nat} {x : Res α} (h : Shr rest pos x) :
+    Shr rest pos (fixPos env pk x) := by
   unfold fixPos
   split
-  · exact data_shr _ _
+  · exact data_shr
   · exact h
 
-theorem fixPos_shrLe {α : Type} (env : Env) (pk : Bool) {rest : Bytes} {x : Res α} (h : ShrLe rest x) : ShrLe rest (fixPos env pk x) := by
+theorem fixPos_shrLe {α : Type} (env : Env) (pk : Bool) {rest : Bytes} {pos : Nat} {x : Res α} (h : ShrLe rest pos x) :
+    ShrLe rest pos (fixPos env pk x) := by
   unfold fixPos
   split
-  · exact (data_shr _ _).le
+  · exact data_shr.le
   · exact h
 
-theorem ofVisit_shrLe (v : FromValue.R) (r : Bytes) (p : Nat) : ShrLe r (ofVisit v r p) := by
+theorem ofVisit_shrLe (v : FromValue.R) (r : Bytes) (p : Nat) : ShrLe r p (ofVisit v r p) := by
   unfold ofVisit
   split
   · exact ok_shrLe _ _ _
-  · exact (raw_shr _ _ _).le
+  · exact raw_shr.le
 
 theorem digitsOf_length (r : Bytes) : (digitsOf r).1.length + (digitsOf r).2.length = r.length := by
   induction r with
@@ -131,140 +137,144 @@ theorem digitsOf_length (r : Bytes) : (digitsOf r).1.length + (digitsOf r).2.len
     · simp only [List.length_cons]; omega
     · simp
 
-theorem digitsOf_le (r : Bytes) : (digitsOf r).2.length ≤ r.length := by
-  have := digitsOf_length r; omega
-
 theorem scanExp_le (env : Env) (neg : Bool) (int : Bytes) (frac : Option Bytes) (rest : Bytes) (pos : Nat) :
-    ShrLe rest (scanExp env neg int frac rest pos) := by
+    ShrLe rest pos (scanExp env neg int frac rest pos) := by
   unfold scanExp
   split
-  · exact (atEof_shr _ _ _ _).le
+  · exact atEof_shr.le
   · rename_i c r
     dsimp only
-    have hs : (if c == 0x2b then ((false, r, pos + 1) : Bool × Bytes × Nat) else if c == 0x2d then (true, r, pos + 1)
-        else (false, c :: r, pos)).2.1.length ≤ (c :: r).length := by
-      split
-      · simp
-      · split <;> simp
+    have hs : ∀ (x : Bool × Bytes × Nat), x = (if c == 0x2b then ((false, r, pos + 1) : Bool × Bytes × Nat) else if c == 0x2d then (true, r, pos + 1)
+        else (false, c :: r, pos)) → x.2.1.length ≤ (c :: r).length ∧ x.2.2 + x.2.1.length = pos + (c :: r).length := by
+      intro x hx
+      split at hx
+      · subst hx; exact ⟨by simp, by simp only [List.length_cons]; omega⟩
+      · split at hx
+        · subst hx; exact ⟨by simp, by simp only [List.length_cons]; omega⟩
+        · subst hx; exact ⟨Nat.le_refl _, rfl⟩
+    generalize hsg : (if c == 0x2b then ((false, r, pos + 1) : Bool × Bytes × Nat) else if c == 0x2d then (true, r, pos + 1)
+        else (false, c :: r, pos)) = sgn
+    have hs' := hs sgn hsg.symm
+    obtain ⟨sn, sr, sp⟩ := sgn
+    dsimp only at hs' ⊢
     split
-    · exact (atEof_shr _ _ _ _).le
-    · rename_i d r2 hd
-      rw [hd] at hs
-      have h2 := digitsOf_le r2
-      simp only [List.length_cons] at hs
+    · exact atEof_shr.le
+    · rename_i d r2
+      have h2 := digitsOf_length r2
+      simp only [List.length_cons] at hs'
       repeat' split
       all_goals first
-        | exact (err_shr _ _ _).le
-        | exact (io_shr _).le
-        | exact ok_shrLe_of (by simp only [List.length_cons]; omega)
+        | exact err_shr.le
+        | exact io_shr.le
+        | exact ok_shrLe_of (by simp only [List.length_cons]; omega) (by simp only [List.length_cons]; omega)
 
 theorem scanAfterInt_le (env : Env) (neg : Bool) (int : Bytes) (rest : Bytes) (pos : Nat) :
-    ShrLe rest (scanAfterInt env neg int rest pos) := by
+    ShrLe rest pos (scanAfterInt env neg int rest pos) := by
   unfold scanAfterInt
   split
   · split
-    · exact (io_shr _).le
+    · exact io_shr.le
     · exact ok_shrLe _ _ _
   · rename_i c r
     split
     · dsimp only
-      have h2 := digitsOf_le r
+      have h2 := digitsOf_length r
       split
-      · repeat' split
+      · rename_i h3
+        rw [h3] at h2
+        repeat' split
         all_goals first
-          | exact (atEof_shr _ _ _ _).le
-          | exact (io_shr _).le
-          | exact ok_shrLe_of (by simp)
+          | exact atEof_shr.le
+          | exact io_shr.le
+          | exact ok_shrLe_of (by simp) (by simp only [List.length_cons, List.length_nil] at *; omega)
       · rename_i c2 r3 h3
         rw [h3] at h2
         simp only [List.length_cons] at h2
         repeat' split
         all_goals first
-          | exact (err_shr _ _ _).le
-          | exact (scanExp_le _ _ _ _ _ _).mono (by simp only [List.length_cons]; omega)
-          | exact ok_shrLe_of (by simp only [List.length_cons]; omega)
+          | exact err_shr.le
+          | exact (scanExp_le _ _ _ _ _ _).mono (by simp only [List.length_cons]; omega) (by simp only [List.length_cons]; omega)
+          | exact ok_shrLe_of (by simp only [List.length_cons]; omega) (by simp only [List.length_cons]; omega)
     · split
-      · exact (scanExp_le _ _ _ _ _ _).mono (by simp)
+      · exact (scanExp_le _ _ _ _ _ _).mono (by simp) (by simp only [List.length_cons]; omega)
       · exact ok_shrLe _ _ _
 
-theorem scanInteger_shr (env : Env) (neg : Bool) (rest : Bytes) (pos : Nat) : Shr rest (scanInteger env neg rest pos) := by
+theorem scanInteger_shr (env : Env) (neg : Bool) (rest : Bytes) (pos : Nat) : Shr rest pos (scanInteger env neg rest pos) := by
   unfold scanInteger
   split
-  · exact atEof_shr _ _ _ _
+  · exact atEof_shr
   · rename_i c r
-    have lt : ∀ {x : Res Model.Num.Parts} {r' : Bytes}, ShrLe r' x → r'.length ≤ r.length → Shr (c :: r) x :=
-      fun hx hl => ⟨hx.1, fun a r'' p'' e => by have := hx.2 a r'' p'' e; simp only [List.length_cons]; omega⟩
     split
     · split
-      · exact lt (scanAfterInt_le _ _ _ _ _) (by simp)
+      · exact (scanAfterInt_le _ _ _ _ _).step (by simp) (by simp)
       · split
-        · exact err_shr _ _ _
-        · exact lt (scanAfterInt_le _ _ _ _ _) (Nat.le_refl _)
+        · exact err_shr
+        · exact (scanAfterInt_le _ _ _ _ _).step (by simp) (by simp only [List.length_cons]; omega)
     · split
-      · exact lt (scanAfterInt_le _ _ _ _ _) (digitsOf_le r)
-      · exact err_shr _ _ _
+      · have := digitsOf_length r
+        exact (scanAfterInt_le _ _ _ _ _).step (by simp only [List.length_cons]; omega) (by simp only [List.length_cons]; omega)
+      · exact err_shr
 
-theorem scanNumber_shr (env : Env) (rest : Bytes) (pos : Nat) : Shr rest (scanNumber env rest pos) := by
+theorem scanNumber_shr (env : Env) (rest : Bytes) (pos : Nat) : Shr rest pos (scanNumber env rest pos) := by
   unfold scanNumber
   split
-  · exact atEof_shr _ _ _ _
+  · exact atEof_shr
   · split
-    · exact (scanInteger_shr _ _ _ _).mono (by simp)
+    · exact (scanInteger_shr _ _ _ _).mono (by simp) (by simp only [List.length_cons]; omega)
     · exact scanInteger_shr _ _ _ _
 
 theorem deNumber_shr (env : Env) (ty : NumTy) : Good (deNumber env ty) := by
   intro rest pos
   unfold deNumber
   split
-  · exact atEof_shr _ _ _ _
+  · exact atEof_shr
   · rename_i b r p h
     split
     · refine shr_skip h ((scanNumber_shr env (b :: r) p).bind_le fun parts r1 p1 _ => ?_)
       repeat' split
       all_goals first
         | exact ok_shrLe _ _ _
-        | exact (err_shr _ _ _).le
+        | exact err_shr.le
         | exact fixPos_shrLe _ _ (ofVisit_shrLe _ _ _)
-    · exact peekInvalidType_shr _ _ _ _
+    · exact peekInvalidType_shr
 
-theorem scanDigits_le (env : Env) (acc : Bytes) (rest : Bytes) (pos : Nat) : ShrLe rest (scanDigits env acc rest pos) := by
+theorem scanDigits_le (env : Env) (acc : Bytes) (rest : Bytes) (pos : Nat) : ShrLe rest pos (scanDigits env acc rest pos) := by
   induction rest generalizing acc pos with
   | nil => unfold scanDigits; split
-           · exact (io_shr _).le
+           · exact io_shr.le
            · exact ok_shrLe _ _ _
   | cons c r ih =>
     unfold scanDigits
     split
-    · exact (ih _ _).mono (by simp)
+    · exact (ih _ _).mono (by simp) (by simp only [List.length_cons]; omega)
     · exact ok_shrLe _ _ _
 
-theorem scanInteger128_shr (env : Env) (rest : Bytes) (pos : Nat) : Shr rest (scanInteger128 env rest pos) := by
+theorem scanInteger128_shr (env : Env) (rest : Bytes) (pos : Nat) : Shr rest pos (scanInteger128 env rest pos) := by
   unfold scanInteger128
   split
-  · exact atEof_shr _ _ _ _
+  · exact atEof_shr
   · rename_i c r
     split
     · split
       · split
-        · exact io_shr _
-        · exact ok_shr_of (by simp)
+        · exact io_shr
+        · exact ok_shr_of (by simp) (by simp)
       · split
-        · exact err_shr _ _ _
-        · exact ok_shr_of (by simp)
+        · exact err_shr
+        · exact ok_shr_of (by simp) (by simp only [List.length_cons]; omega)
     · split
-      · have := scanDigits_le env [c] r (pos + 1)
-        exact ⟨this.1, fun a r' p' e => by have := this.2 a r' p' e; simp only [List.length_cons]; omega⟩
-      · exact err_shr _ _ _
+      · exact (scanDigits_le env [c] r (pos + 1)).step (by simp) (by simp only [List.length_cons]; omega)
+      · exact err_shr
 
 theorem deInt128_shr (env : Env) (w : IntTy) : Good (deInt128 env w) := by
   intro rest pos
   unfold deInt128
   split
-  · exact atEof_shr _ _ _ _
+  · exact atEof_shr
   · rename_i b r p h
     simp only
     have fin : ∀ (neg : Bool) (rr : Bytes) (pp : Nat),
-        Shr rr ((scanInteger128 env rr pp).bind fun ds rest' pos' =>
+        Shr rr pp ((scanInteger128 env rr pp).bind fun ds rest' pos' =>
           match FromValue.rustParseInt w (if neg then 0x2d :: ds else ds) with
           | some x => (.ok (.int x) rest' pos' : TOut)
           | none => .err .NumberOutOfRange (errorIdx env rest' pos' true)) := by
@@ -272,11 +282,11 @@ theorem deInt128_shr (env : Env) (w : IntTy) : Good (deInt128 env w) := by
       refine (scanInteger128_shr env rr pp).bind_le fun ds r1 p1 _ => ?_
       split
       · exact ok_shrLe _ _ _
-      · exact (err_shr _ _ _).le
+      · exact err_shr.le
     split
     · split
       · exact shr_after_skip h (fin true r (p + 1)).le
-      · exact err_shr _ _ _
+      · exact err_shr
     · exact shr_skip h (fin false (b :: r) p)
 
 theorem deInt_shr (env : Env) (w : IntTy) : Good (deInt env w) := by
@@ -286,7 +296,7 @@ theorem deInt_shr (env : Env) (w : IntTy) : Good (deInt env w) := by
   · exact deInt128_shr env w rest pos
   · exact deNumber_shr env _ rest pos
 
-theorem parseStr_le (env : Env) (rest : Bytes) (pos : Nat) : ShrLe rest (parseStr env rest pos) := by
+theorem parseStr_le (env : Env) (rest : Bytes) (pos : Nat) : ShrLe rest pos (parseStr env rest pos) := by
   unfold parseStr
   refine (machine_shr (valEnv env) env.flt 0 _ startable_str rest pos).le.bind_le fun v r1 p1 _ => ?_
   split <;> exact ok_shrLe _ _ _
@@ -295,32 +305,32 @@ theorem deStr_shr (env : Env) (visit : Bytes → FromValue.R) : Good (deStr env 
   intro rest pos
   unfold deStr
   split
-  · exact atEof_shr _ _ _ _
+  · exact atEof_shr
   · rename_i b r p h
     split
     · exact shr_after_skip h ((parseStr_le env r (p + 1)).bind_le fun s r1 p1 _ => fixPos_shrLe _ _ (ofVisit_shrLe _ _ _))
-    · exact peekInvalidType_shr _ _ _ _
+    · exact peekInvalidType_shr
 
-theorem runRaw_le (env : Env) (st : RawSt) (rest : Bytes) (pos : Nat) : ShrLe rest (runRaw env st rest pos) := by
+theorem runRaw_le (env : Env) (st : RawSt) (rest : Bytes) (pos : Nat) : ShrLe rest pos (runRaw env st rest pos) := by
   induction rest generalizing st pos with
-  | nil => unfold runRaw; exact (atEof_shr _ _ _ _).le
+  | nil => unfold runRaw; exact atEof_shr.le
   | cons b r ih =>
     unfold runRaw
     repeat' split
     all_goals first
-      | exact (err_shr _ _ _).le
-      | exact (ih _ _).mono (by simp)
-      | exact ok_shrLe_of (by simp)
+      | exact err_shr.le
+      | exact (ih _ _).mono (by simp) (by simp only [List.length_cons]; omega)
+      | exact ok_shrLe_of (by simp) (by simp only [List.length_cons]; omega)
 
-theorem parseStrRaw_le (env : Env) (rest : Bytes) (pos : Nat) : ShrLe rest (parseStrRaw env rest pos) :=
+theorem parseStrRaw_le (env : Env) (rest : Bytes) (pos : Nat) : ShrLe rest pos (parseStrRaw env rest pos) :=
   runRaw_le env {} rest pos
 
 /-! ## sequences -/
 
-theorem hasNextElement_le (env : Env) (first : Bool) (rest : Bytes) (pos : Nat) : ShrLe rest (hasNextElement env first rest pos) := by
+theorem hasNextElement_le (env : Env) (first : Bool) (rest : Bytes) (pos : Nat) : ShrLe rest pos (hasNextElement env first rest pos) := by
   unfold hasNextElement
   split
-  · exact (atEof_shr _ _ _ _).le
+  · exact atEof_shr.le
   · rename_i b r p h
     split
     · exact shrLe_skip h (ok_shrLe _ _ _)
@@ -328,21 +338,21 @@ theorem hasNextElement_le (env : Env) (first : Bool) (rest : Bytes) (pos : Nat) 
       · exact shrLe_skip h (ok_shrLe _ _ _)
       · split
         · split
-          · exact (atEof_shr _ _ _ _).le
+          · exact atEof_shr.le
           · rename_i c r' q h2
             split
-            · exact (err_shr _ _ _).le
-            · have h1 := (skipWs_eq h).1
-              have h3 := (skipWs_eq h2).1
+            · exact err_shr.le
+            · have h1 := skipWs_eq h
+              have h3 := skipWs_eq h2
               simp only [List.length_cons] at h1 h3
-              exact ok_shrLe_of (by simp only [List.length_cons]; omega)
-        · exact (err_shr _ _ _).le
+              exact ok_shrLe_of (by simp only [List.length_cons]; omega) (by simp only [List.length_cons]; omega)
+        · exact err_shr.le
 
 /-- `next_element_seed`: `none` leaves the input as it is, `some` consumed at least a byte -/
 theorem nextElement_spec (env : Env) (de : Bytes → Nat → TOut) (hde : Good de) (first : Bool) (rest : Bytes) (pos : Nat) :
     nextElement env de first rest pos ≠ .fuel ∧
     ∀ o r' p', nextElement env de first rest pos = .ok o r' p' →
-      r'.length ≤ rest.length ∧ (o.isSome → r'.length < rest.length) := by
+      r'.length ≤ rest.length ∧ (o.isSome → r'.length < rest.length) ∧ p' + r'.length = pos + rest.length := by
   unfold nextElement
   have hh := hasNextElement_le env first rest pos
   constructor
@@ -356,13 +366,12 @@ theorem nextElement_spec (env : Env) (de : Bytes → Nat → TOut) (hde : Good d
     split at h2
     · obtain ⟨v, hv, rfl⟩ := map_ok h2
       have := (hde r1 p1).2 _ _ _ hv
-      exact ⟨by omega, fun _ => by omega⟩
-    · simp at h2
-      obtain ⟨rfl, rfl, _⟩ := h2
-      exact ⟨hl, fun h => by simp at h⟩
+      exact ⟨by omega, fun _ => by omega, by omega⟩
+    · cases h2
+      exact ⟨hl.1, fun h => by simp at h, hl.2⟩
 
 theorem seqLoop_le (env : Env) (de : Bytes → Nat → TOut) (hde : Good de) (n : Nat) (first : Bool) (acc : List TVal)
-    (rest : Bytes) (pos : Nat) (hn : rest.length < n) : ShrLe rest (seqLoop env de n first acc rest pos) := by
+    (rest : Bytes) (pos : Nat) (hn : rest.length < n) : ShrLe rest pos (seqLoop env de n first acc rest pos) := by
   induction n generalizing first acc rest pos with
   | zero => omega
   | succ n ih =>
@@ -373,18 +382,18 @@ theorem seqLoop_le (env : Env) (de : Bytes → Nat → TOut) (hde : Good de) (n 
       have := hne.2 _ _ _ h1
       split
       · simp
-      · exact (ih _ _ _ _ (by have := this.2 (by simp); omega)).1
+      · exact (ih _ _ _ _ (by have := this.2.1 (by simp); omega)).1
     · intro a r' p' e
       obtain ⟨o, r1, p1, h1, h2⟩ := bind_ok e
       have hl := hne.2 _ _ _ h1
       split at h2
-      · simp at h2; obtain ⟨_, rfl, _⟩ := h2; exact hl.1
-      · have hlt := hl.2 (by simp)
+      · cases h2; exact ⟨hl.1, hl.2.2⟩
+      · have hlt := hl.2.1 (by simp)
         have := (ih _ _ _ _ (by omega)).2 _ _ _ h2
         omega
 
 theorem tupleLoop_le (env : Env) (de : Schema → Bytes → Nat → TOut) (ss : List Schema) (hde : ∀ s ∈ ss, Good (de s))
-    (first : Bool) (acc : List TVal) (rest : Bytes) (pos : Nat) : ShrLe rest (tupleLoop env de ss first acc rest pos) := by
+    (first : Bool) (acc : List TVal) (rest : Bytes) (pos : Nat) : ShrLe rest pos (tupleLoop env de ss first acc rest pos) := by
   induction ss generalizing first acc rest pos with
   | nil => unfold tupleLoop; exact ok_shrLe _ _ _
   | cons s ss ih =>
@@ -404,133 +413,143 @@ theorem tupleLoop_le (env : Env) (de : Schema → Bytes → Nat → TOut) (ss : 
       · have := (ih' _ _ _ _).2 _ _ _ h2
         omega
 
-theorem endSeq_le (env : Env) (rest : Bytes) (pos : Nat) : ShrLe rest (endSeq env rest pos).res := by
+theorem endSeq_le (env : Env) (rest : Bytes) (pos : Nat) : ShrLe rest pos (endSeq env rest pos).res := by
   unfold endSeq
   split
-  · exact (atEof_shr _ _ _ _).le
+  · exact atEof_shr.le
   · rename_i b r p h
-    have h1 := (skipWs_eq h).1
+    have h1 := skipWs_eq h
     simp only [List.length_cons] at h1
     repeat' split
     all_goals first
-      | exact (err_shr _ _ _).le
-      | exact ok_shrLe_of (by omega)
+      | exact err_shr.le
+      | exact ok_shrLe_of (by omega) (by omega)
 
-theorem endMap_le (env : Env) (rest : Bytes) (pos : Nat) : ShrLe rest (endMap env rest pos).res := by
+theorem endMap_le (env : Env) (rest : Bytes) (pos : Nat) : ShrLe rest pos (endMap env rest pos).res := by
   unfold endMap
   split
-  · exact (atEof_shr _ _ _ _).le
+  · exact atEof_shr.le
   · rename_i b r p h
-    have h1 := (skipWs_eq h).1
+    have h1 := skipWs_eq h
     simp only [List.length_cons] at h1
     repeat' split
     all_goals first
-      | exact (err_shr _ _ _).le
-      | exact ok_shrLe_of (by omega)
+      | exact err_shr.le
+      | exact ok_shrLe_of (by omega) (by omega)
 
-theorem closeWith_le {α : Type} (env : Env) (endFn : Bytes → Nat → EndState) (hend : ∀ r p, ShrLe r (endFn r p).res)
-    {rest : Bytes} {ret : Res α} (h : ShrLe rest ret) : ShrLe rest (closeWith env endFn ret) := by
+theorem closeWith_le {α : Type} (env : Env) (endFn : Bytes → Nat → EndState) (hend : ∀ r p, ShrLe r p (endFn r p).res)
+    {rest : Bytes} {pos : Nat} {ret : Res α} (h : ShrLe rest pos ret) : ShrLe rest pos (closeWith env endFn ret) := by
   unfold closeWith
   split
   · rename_i a r p
     have hl := h.2 a r p rfl
-    exact ((hend r p).bind_le fun _ r1 p1 _ => ok_shrLe _ _ _).mono hl
-  · exact (data_shr _ _).le
+    exact ((hend r p).bind_le fun _ r1 p1 _ => ok_shrLe _ _ _).mono hl.1 hl.2
+  · exact data_shr.le
   · exact h
 
-theorem deSeq_shr (env : Env) (t : Nat) (visit : Bytes → Nat → TOut) (hv : ∀ r p, ShrLe r (visit r p)) : Good (deSeq env t visit) := by
+theorem deSeq_shr (env : Env) (t : Nat) (visit : Bytes → Nat → TOut) (hv : ∀ r p, ShrLe r p (visit r p)) : Good (deSeq env t visit) := by
   intro rest pos
   unfold deSeq
   split
-  · exact atEof_shr _ _ _ _
+  · exact atEof_shr
   · rename_i b r p h
     split
     · split
-      · exact err_shr _ _ _
+      · exact err_shr
       · exact shr_after_skip h (closeWith_le env _ (endSeq_le env) (hv r (p + 1)))
-    · exact peekInvalidType_shr _ _ _ _
+    · exact peekInvalidType_shr
 
 theorem deBytes_shr (env : Env) (t : Nat) : Good (deBytes env t) := by
   intro rest pos
   unfold deBytes
   split
-  · exact atEof_shr _ _ _ _
+  · exact atEof_shr
   · rename_i b r p h
     split
     · exact shr_after_skip h ((parseStrRaw_le env r (p + 1)).map _)
     · split
       · refine shr_skip h (deSeq_shr env t _ (fun r' p' => ?_) (b :: r) p)
         exact (seqLoop_le env _ (deNumber_shr env _) _ _ _ _ _ (by omega)).map _
-      · exact peekInvalidType_shr _ _ _ _
+      · exact peekInvalidType_shr
 
 /-! ## maps -/
 
-theorem hasNextKey_le (env : Env) (first : Bool) (rest : Bytes) (pos : Nat) : ShrLe rest (hasNextKey env first rest pos) := by
+theorem hasNextKey_le (env : Env) (first : Bool) (rest : Bytes) (pos : Nat) : ShrLe rest pos (hasNextKey env first rest pos) := by
   unfold hasNextKey
   split
-  · exact (atEof_shr _ _ _ _).le
+  · exact atEof_shr.le
   · rename_i b r p h
     split
     · exact shrLe_skip h (ok_shrLe _ _ _)
     · split
       · split
         · exact shrLe_skip h (ok_shrLe _ _ _)
-        · exact (err_shr _ _ _).le
+        · exact err_shr.le
       · split
         · split
-          · exact (atEof_shr _ _ _ _).le
+          · exact atEof_shr.le
           · rename_i c r' q h2
-            have h1 := (skipWs_eq h).1
-            have h3 := (skipWs_eq h2).1
+            have h1 := skipWs_eq h
+            have h3 := skipWs_eq h2
             simp only [List.length_cons] at h1 h3
             split
-            · exact ok_shrLe_of (by simp only [List.length_cons]; omega)
+            · exact ok_shrLe_of (by simp only [List.length_cons]; omega) (by simp only [List.length_cons]; omega)
             · split
-              · exact (err_shr _ _ _).le
-              · exact (err_shr _ _ _).le
-        · exact (err_shr _ _ _).le
+              · exact err_shr.le
+              · exact err_shr.le
+        · exact err_shr.le
 
-theorem parseObjectColon_le (env : Env) (rest : Bytes) (pos : Nat) : ShrLe rest (parseObjectColon env rest pos) := by
+theorem parseObjectColon_le (env : Env) (rest : Bytes) (pos : Nat) : ShrLe rest pos (parseObjectColon env rest pos) := by
   unfold parseObjectColon
   split
-  · exact (atEof_shr _ _ _ _).le
+  · exact atEof_shr.le
   · rename_i b r p h
     split
-    · have h1 := (skipWs_eq h).1
+    · have h1 := skipWs_eq h
       simp only [List.length_cons] at h1
-      exact ok_shrLe_of (by omega)
-    · exact (err_shr _ _ _).le
+      exact ok_shrLe_of (by omega) (by omega)
+    · exact err_shr.le
 
-theorem keyStr_le (env : Env) (visit : Bytes → FromValue.R) (rest : Bytes) (pos : Nat) : ShrLe rest (keyStr env visit rest pos) := by
+/-- the key deserializers are entered with the opening quote peeked: `rest = q :: _` -/
+theorem drop1 {rest : Bytes} (h : rest ≠ []) : (rest.drop 1).length + 1 = rest.length := by
+  cases rest with
+  | nil => exact absurd rfl h
+  | cons b r => simp
+
+theorem keyStr_le (env : Env) (visit : Bytes → FromValue.R) (rest : Bytes) (pos : Nat) (h : rest ≠ []) :
+    ShrLe rest pos (keyStr env visit rest pos) := by
   unfold keyStr
-  exact ((parseStr_le env (rest.drop 1) (pos + 1)).bind_le fun s r p _ => ofVisit_shrLe _ _ _).mono (by simp)
+  have := drop1 h
+  exact ((parseStr_le env (rest.drop 1) (pos + 1)).bind_le fun s r p _ => ofVisit_shrLe _ _ _).mono (by omega) (by omega)
 
-theorem keyInt_le (env : Env) (w : IntTy) (rest : Bytes) (pos : Nat) : ShrLe rest (keyInt env w rest pos) := by
+theorem keyInt_le (env : Env) (w : IntTy) (rest : Bytes) (pos : Nat) (h : rest ≠ []) : ShrLe rest pos (keyInt env w rest pos) := by
   unfold keyInt
+  have hd := drop1 h
   split
-  · exact (atEof_shr _ _ _ _).le
-  · rename_i b r h
-    have hl : (b :: r).length ≤ rest.length := by rw [← h]; simp
+  · exact atEof_shr.le
+  · rename_i b r hr
+    rw [hr] at hd
     split
-    · exact (err_shr _ _ _).le
-    · refine ((deInt_shr env w (b :: r) (pos + 1)).le.bind_le fun v r' p' _ => ?_).mono hl
+    · exact err_shr.le
+    · refine ((deInt_shr env w (b :: r) (pos + 1)).le.bind_le fun v r' p' _ => ?_).mono (by omega) (by omega)
       split
-      · exact (atEof_shr _ _ _ _).le
+      · exact atEof_shr.le
       · split
-        · exact ok_shrLe_of (by simp)
-        · exact (err_shr _ _ _).le
+        · exact ok_shrLe_of (by simp) (by simp only [List.length_cons]; omega)
+        · exact err_shr.le
 
-theorem keyBool_le (env : Env) (rest : Bytes) (pos : Nat) : ShrLe rest (keyBool env rest pos) := by
+theorem keyBool_le (env : Env) (rest : Bytes) (pos : Nat) (h : rest ≠ []) : ShrLe rest pos (keyBool env rest pos) := by
   unfold keyBool
+  have hd := drop1 h
   split
-  · exact (atEof_shr _ _ _ _).le
-  · rename_i b r h
-    have hl : (b :: r).length ≤ rest.length := by rw [← h]; simp
-    have hl' : r.length ≤ rest.length := by simp only [List.length_cons] at hl; omega
+  · exact atEof_shr.le
+  · rename_i b r hr
+    rw [hr] at hd
+    simp only [List.length_cons] at hd
     repeat' split
     all_goals first
-      | exact (ident_then_ok _ _ _ _ _).mono hl'
-      | exact ((parseStr_le env (b :: r) (pos + 1)).bind_le fun _ r' p' _ => (data_shr _ _).le).mono hl
+      | exact (ident_then_ok _ _ _ _ _).mono (by omega) (by omega)
+      | exact ((parseStr_le env (b :: r) (pos + 1)).bind_le fun _ r' p' _ => data_shr.le).mono (by simp only [List.length_cons]; omega) (by simp only [List.length_cons]; omega)
 
 theorem deVariantId_shr (env : Env) (names : List Bytes) : Good (deVariantId env names) :=
   deStr_shr env _
@@ -541,20 +560,30 @@ theorem keyUnitEnum_shr (env : Env) (names : List Bytes) : Good (keyUnitEnum env
   refine (deVariantId_shr env names rest pos).bind_le fun v r p _ => ?_
   split
   · exact ok_shrLe _ _ _
-  · exact (raw_shr _ _ _).le
+  · exact raw_shr.le
 
-theorem deKey_le (env : Env) (k : KeyKind) (rest : Bytes) (pos : Nat) : ShrLe rest (deKey env k rest pos) := by
+theorem deKey_le (env : Env) (k : KeyKind) (rest : Bytes) (pos : Nat) (h : rest ≠ []) : ShrLe rest pos (deKey env k rest pos) := by
   unfold deKey
   split
-  · exact keyStr_le _ _ _ _
-  · exact keyInt_le _ _ _ _
-  · exact keyBool_le _ _ _
-  · exact keyStr_le _ _ _ _
+  · exact keyStr_le _ _ _ _ h
+  · exact keyInt_le _ _ _ _ h
+  · exact keyBool_le _ _ _ h
+  · exact keyStr_le _ _ _ _ h
   · exact (keyUnitEnum_shr env _ rest pos).le
+
+/-- `has_next_key` answers `true` only with the key's opening quote peeked -/
+theorem hasNextKey_true (env : Env) (first : Bool) (rest : Bytes) (pos : Nat) (r : Bytes) (p : Nat)
+    (h : hasNextKey env first rest pos = .ok true r p) : r ≠ [] := by
+  unfold hasNextKey at h
+  repeat' split at h
+  all_goals first
+    | (simp at h; done)
+    | (cases h; simp)
+    | exact absurd h (atEof_ne_ok _ _ _ _ _ _)
 
 theorem mapLoop_le (env : Env) (k : KeyKind) (de : Bytes → Nat → TOut) (hde : Good de) (n : Nat) (first : Bool)
     (acc : List (TVal × TVal)) (rest : Bytes) (pos : Nat) (hn : rest.length < n) :
-    ShrLe rest (mapLoop env k de n first acc rest pos) := by
+    ShrLe rest pos (mapLoop env k de n first acc rest pos) := by
   induction n generalizing first acc rest pos with
   | zero => omega
   | succ n ih =>
@@ -563,29 +592,33 @@ theorem mapLoop_le (env : Env) (k : KeyKind) (de : Bytes → Nat → TOut) (hde 
     have hl := (hasNextKey_le env first rest pos).2 _ _ _ hmore
     split
     · exact ok_shrLe _ _ _
-    · refine (deKey_le env k r p).bind_le fun kv r1 p1 h1 => ?_
-      have hl1 := (deKey_le env k r p).2 _ _ _ h1
+    · rename_i hm
+      have hm' : more = true := by simpa using hm
+      subst hm'
+      have hne := hasNextKey_true env first rest pos r p hmore
+      refine (deKey_le env k r p hne).bind_le fun kv r1 p1 h1 => ?_
+      have hl1 := (deKey_le env k r p hne).2 _ _ _ h1
       refine (parseObjectColon_le env r1 p1).bind_le fun _ r2 p2 h2 => ?_
       have hl2 := (parseObjectColon_le env r1 p1).2 _ _ _ h2
       refine ((hde r2 p2).le.bind_le fun v r3 p3 h3 => ?_)
       have hl3 := (hde r2 p2).2 _ _ _ h3
       exact ih _ _ _ _ (by omega)
 
-theorem deMap_shr (env : Env) (t : Nat) (visit : Bytes → Nat → TOut) (hv : ∀ r p, ShrLe r (visit r p)) : Good (deMap env t visit) := by
+theorem deMap_shr (env : Env) (t : Nat) (visit : Bytes → Nat → TOut) (hv : ∀ r p, ShrLe r p (visit r p)) : Good (deMap env t visit) := by
   intro rest pos
   unfold deMap
   split
-  · exact atEof_shr _ _ _ _
+  · exact atEof_shr
   · rename_i b r p h
     split
     · split
-      · exact err_shr _ _ _
+      · exact err_shr
       · exact shr_after_skip h (closeWith_le env _ (endMap_le env) (hv r (p + 1)))
-    · exact peekInvalidType_shr _ _ _ _
+    · exact peekInvalidType_shr
 
 /-! ## structs and enums -/
 
-theorem ignoreValue_shr (env : Env) (rest : Bytes) (pos : Nat) : Shr rest (ignoreValue env rest pos) :=
+theorem ignoreValue_shr (env : Env) (rest : Bytes) (pos : Nat) : Shr rest pos (ignoreValue env rest pos) :=
   (machine_shr (ignEnv env) env.flt 0 init startable_init rest pos).map _
 
 theorem mem_of_getElem? {α : Type} {l : List α} {i : Nat} {a : α} (h : l[i]? = some a) : a ∈ l :=
@@ -593,7 +626,7 @@ theorem mem_of_getElem? {α : Type} {l : List α} {i : Nat} {a : α} (h : l[i]? 
 
 theorem structLoop_le (env : Env) (de : Schema → Bytes → Nat → TOut) (fs : List (Bytes × Schema))
     (hde : ∀ f ∈ fs, Good (de f.2)) (deny : Bool) (n : Nat) (first : Bool) (slots : List (Option TVal))
-    (rest : Bytes) (pos : Nat) (hn : rest.length < n) : ShrLe rest (structLoop env de fs deny n first slots rest pos) := by
+    (rest : Bytes) (pos : Nat) (hn : rest.length < n) : ShrLe rest pos (structLoop env de fs deny n first slots rest pos) := by
   induction n generalizing first slots rest pos with
   | zero => omega
   | succ n ih =>
@@ -602,13 +635,16 @@ theorem structLoop_le (env : Env) (de : Schema → Bytes → Nat → TOut) (fs :
     have hl := (hasNextKey_le env first rest pos).2 _ _ _ hmore
     split
     · exact ok_shrLe _ _ _
-    · refine (parseStr_le env (r.drop 1) (p + 1)).mono (by simp) |>.bind_le fun name r1 p1 h1 => ?_
-      have hl1 : r1.length ≤ r.length := by
-        have := (parseStr_le env (r.drop 1) (p + 1)).2 _ _ _ h1
-        simp only [List.length_drop] at this; omega
+    · rename_i hm
+      have hm' : more = true := by simpa using hm
+      subst hm'
+      have hd := drop1 (hasNextKey_true env first rest pos r p hmore)
+      have hps := parseStr_le env (r.drop 1) (p + 1)
+      refine (hps.mono (by omega) (by omega) : ShrLe r p _).bind_le fun name r1 p1 h1 => ?_
+      have hl1 := hps.2 _ _ _ h1
       split
       · split
-        · exact (raw_shr _ _ _).le
+        · exact raw_shr.le
         · refine (parseObjectColon_le env r1 p1).bind_le fun _ r2 p2 h2 => ?_
           have hl2 := (parseObjectColon_le env r1 p1).2 _ _ _ h2
           split
@@ -617,9 +653,9 @@ theorem structLoop_le (env : Env) (de : Schema → Bytes → Nat → TOut) (fs :
             refine (hg r2 p2).le.bind_le fun v r3 p3 h3 => ?_
             have hl3 := (hg r2 p2).2 _ _ _ h3
             exact ih _ _ _ _ (by omega)
-          · exact (raw_shr _ _ _).le
+          · exact raw_shr.le
       · split
-        · exact (raw_shr _ _ _).le
+        · exact raw_shr.le
         · refine (parseObjectColon_le env r1 p1).bind_le fun _ r2 p2 h2 => ?_
           have hl2 := (parseObjectColon_le env r1 p1).2 _ _ _ h2
           refine (ignoreValue_shr env r2 p2).le.bind_le fun _ r3 p3 h3 => ?_
@@ -628,32 +664,32 @@ theorem structLoop_le (env : Env) (de : Schema → Bytes → Nat → TOut) (fs :
 
 theorem structVisitMap_le (env : Env) (de : Schema → Bytes → Nat → TOut) (fs : List (Bytes × Schema))
     (hde : ∀ f ∈ fs, Good (de f.2)) (deny : Bool) (rest : Bytes) (pos : Nat) :
-    ShrLe rest (structVisitMap env de fs deny rest pos) := by
+    ShrLe rest pos (structVisitMap env de fs deny rest pos) := by
   unfold structVisitMap
   refine (structLoop_le env de fs hde deny _ _ _ rest pos (by omega)).bind_le fun slots r p _ => ?_
   split
   · exact ok_shrLe _ _ _
-  · exact (raw_shr _ _ _).le
+  · exact raw_shr.le
 
 theorem deStruct_shr (env : Env) (t : Nat) (de : Nat → Schema → Bytes → Nat → TOut) (fs : List (Bytes × Schema))
     (hde : ∀ f ∈ fs, ∀ d, Good (de d f.2)) (deny : Bool) : Good (deStruct env t de fs deny) := by
   intro rest pos
   unfold deStruct
   split
-  · exact atEof_shr _ _ _ _
+  · exact atEof_shr
   · rename_i b r p h
     split
     · split
-      · exact err_shr _ _ _
+      · exact err_shr
       · refine shr_after_skip h (closeWith_le env _ (endSeq_le env) ((tupleLoop_le env _ _ ?_ _ _ _ _).map _))
         intro s hs
         obtain ⟨f, hf, rfl⟩ := List.mem_map.mp hs
         exact hde f hf _
     · split
       · split
-        · exact err_shr _ _ _
+        · exact err_shr
         · exact shr_after_skip h (closeWith_le env _ (endMap_le env) (structVisitMap_le env _ fs (fun f hf => hde f hf _) deny _ _))
-      · exact peekInvalidType_shr _ _ _ _
+      · exact peekInvalidType_shr
 
 /-- the schemas a variant shape mentions -/
 def shapeSchemas : VariantShape → List Schema
@@ -679,33 +715,33 @@ theorem deEnum_shr (env : Env) (t : Nat) (de : Nat → Schema → Bytes → Nat 
   intro rest pos
   unfold deEnum
   split
-  · exact atEof_shr _ _ _ _
+  · exact atEof_shr
   · rename_i b r p h
     split
     · split
-      · exact err_shr _ _ _
+      · exact err_shr
       · refine shr_after_skip h ?_
         refine (deVariantId_shr env _ r (p + 1)).le.bind_le fun iv r1 p1 _ => ?_
         refine (parseObjectColon_le env r1 p1).bind_le fun _ r2 p2 _ => ?_
         split
-        · exact (raw_shr _ _ _).le
+        · exact raw_shr.le
         · rename_i nm sh hs
           refine (dePayload_shr env (t + 1) de sh (hde _ (mem_of_getElem? hs)) r2 p2).le.bind_le fun payload r3 p3 _ => ?_
           split
-          · exact (atEof_shr _ _ _ _).le
+          · exact atEof_shr.le
           · rename_i c r4 q h4
             split
-            · have := (skipWs_eq h4).1
+            · have := skipWs_eq h4
               simp only [List.length_cons] at this
-              exact ok_shrLe_of (by omega)
-            · exact (err_shr _ _ _).le
+              exact ok_shrLe_of (by omega) (by omega)
+            · exact err_shr.le
     · split
       · refine shr_skip h ((deVariantId_shr env _ (b :: r) p).bind_le fun iv r1 p1 _ => ?_)
         dsimp only
         split
         · exact ok_shrLe _ _ _
-        · exact (raw_shr _ _ _).le
-      · exact err_shr _ _ _
+        · exact raw_shr.le
+      · exact err_shr
 
 /-! ## `deTyped` -/
 
@@ -774,7 +810,7 @@ theorem deTyped_good (env : Env) : ∀ (f : Nat) (s : Schema), Schema.size s ≤
       split
       · rename_i p h
         split
-        · exact io_shr _
+        · exact io_shr
         · exact shr_skip h ((ih s' hs' t [] p).map _)
       · rename_i b r p h
         split
